@@ -1,5 +1,5 @@
 """C10 -- finalizer: added first, honoured on deletion, removed only when finalized."""
-from props import sync_level
+from props import sync_level, all_families
 from plan_fin import FIN_PLAN
 
 MANIFEST = dict(
@@ -14,4 +14,4 @@ MANIFEST = dict(
 
 
 def run(scr, tier, replay_file):
-    return sync_level(scr, tier, "C10", "C10_", FIN_PLAN, replay_file)
+    return sync_level(scr, tier, "C10", "C10_", all_families(FIN_PLAN), replay_file)
